@@ -47,8 +47,8 @@ class C14(Pipeline):
     driver_test = "TestDriveRelayGate"
     trace_module = "RelayGateTrace"
     trace_cfg = "RelayGateTrace"
-    quick_cap = 6000
-    thorough_cap = 20000
+    quick_cap = 7000
+    thorough_cap = 15000
     min_histories = 200
     assumptions = [
         "six validators of equal power; target chain eth-b is supported but not active (a chain being onboarded), eth-a is active: "
@@ -123,15 +123,25 @@ class C14(Pipeline):
         withheld = sum(1 for e in events if e["act"] == "Query" and len(e["obs"]["queue"]) > sum(len(x) for x in e["offered"]))
         elected = sum(1 for e in events if e["act"] == "EndBlock" and any(m["fees"][0] > 0 for m in e["obs"]["queue"]))
         # requests arriving when no validator qualifies (counted on the recorded tables, whatever the code answered)
-        prev, hopeless = None, 0
+        prev, hopeless, crossed = None, 0, 0
         for e in events:
             if e["act"] == "Assign" and prev is not None and prev["h"] == e["h"]:
                 o = prev["obs"]
-                if not any(o["snap"][i]["member"] and o["snap"][i]["acct"] and o["fee"][i] and o["perf"][i] for i in range(len(o["fee"]))):
+                home = e["args"]["c"] == "h"
+                if not any(o["snap"][i]["member"] and (home or o["snap"][i]["acct"]) and (o["feeh"][i] if home else o["fee"][i]) and o["perf"][i]
+                           for i in range(len(o["fee"]))):
                     hopeless += 1
+                # MEV-enforcing request while some snapshot member carries the trait only on its OTHER chain account
+                if e["args"]["mev"] and any(o["snap"][i]["member"] and o["snap"][i]["acct"] and
+                                            (o["snap"][i]["mevT"] if home else o["snap"][i]["mevH"]) and
+                                            not (o["snap"][i]["mevH"] if home else o["snap"][i]["mevT"]) for i in range(len(o["fee"]))):
+                    crossed += 1
             prev = e
         if hopeless < 50:
             raise vk.Broken("vacuous trace: only %d requests without any qualifying validator" % hopeless)
+        if crossed < 50:
+            raise vk.Broken("vacuous trace: only %d MEV requests facing a validator whose trait sits on its other chain account" % crossed)
+        self._crossed = crossed
         need = {"Assign:assigned": 50, "Estimate:ok": 50, "Estimate:fail": 5, "Deliver:ok": 20, "Query:query": 100}
         for k, n in need.items():
             if c.get(k, 0) < n:
@@ -160,7 +170,7 @@ class C14(Pipeline):
             break
         # 2) the relayer address recorded on an assigned message is not the snapshot's
         for h, evs in byh.items():
-            a = next((e for e in evs if e["act"] == "Assign" and e["res"] == "assigned"), None)
+            a = next((e for e in evs if e["act"] == "Assign" and e["res"] == "assigned" and e["args"]["c"] == "t"), None)
             if a is None:
                 continue
             c = copy.deepcopy(evs)
@@ -201,7 +211,25 @@ class C14(Pipeline):
             v = self.validate(c)
             res["floored_fee_rejected"] = any(n == "C14.FeesCeil" for n, _, _ in v.monfail)
             break
-        want = ("foreign_offer_rejected", "wrong_relayer_address_rejected", "dropped_event_rejected", "floored_fee_rejected")
+        # 5) the assignee of a MEV-enforcing job carries the trait on its OTHER chain account only
+        for h, evs in byh.items():
+            a = next((e for e in evs if e["act"] == "Assign" and e["res"] == "assigned" and e["args"]["mev"] and e["i"] > 1), None)
+            if a is None:
+                continue
+            c = copy.deepcopy(evs)
+            key = "queue" if a["args"]["c"] == "t" else "queueh"
+            prev = next(e for e in c if e["i"] == a["i"] - 1)
+            old = {m["id"] for m in prev["obs"][key]}
+            who = next((m["assignee"] for m in a["obs"][key] if m["id"] not in old), 0)
+            if not who:
+                continue
+            own, oth = ("mevT", "mevH") if a["args"]["c"] == "t" else ("mevH", "mevT")
+            prev["obs"]["snap"][who - 1][own], prev["obs"]["snap"][who - 1][oth] = False, True
+            v = self.validate(c)
+            res["trait_on_other_chain_rejected"] = any(n == "C14.AssigneeEligible" for n, _, _ in v.monfail)
+            break
+        want = ("foreign_offer_rejected", "wrong_relayer_address_rejected", "dropped_event_rejected", "floored_fee_rejected",
+                "trait_on_other_chain_rejected")
         res["ok"] = all(res.get(k) for k in want)
         return res
 
@@ -320,7 +348,8 @@ class C14(Pipeline):
 
     def extra_coverage(self, tier):
         self._fee = self.fee_check(tier)
-        cov = {"fee_samples_apalache": {k: v for k, v in self._fee.items() if k != "not_reproduced"},
+        cov = {"mev_requests_with_trait_on_other_chain_account": getattr(self, "_crossed", 0),
+               "fee_samples_apalache": {k: v for k, v in self._fee.items() if k != "not_reproduced"},
                "fee_samples_not_reproduced": self._fee["not_reproduced"][:10]}
         panics = getattr(self, "_panics", [])
         if panics:
